@@ -342,6 +342,24 @@ fn sub_modules(input: &[u8], st: &mut Stats) -> R {
     Ok(())
 }
 
+/// modules with structural variations: a text split by byte count over two consecutive
+/// string-bearing instructions, modules stored back to back, special words at instruction
+/// boundaries, ids around 2^16, swapped and repeated instructions (`layout::mutate2`)
+fn sub_structural(input: &[u8], st: &mut Stats) -> R {
+    let mut cs = Cs::new(input);
+    let mode = match cs.below(8) {
+        0..=4 => ModMode::Ordered,
+        5..=6 => ModMode::Interleaved,
+        _ => ModMode::Wild,
+    };
+    let m = gen_module(&mut cs, mode, 30);
+    let (bytes, kinds) = crate::layout::mutate2(&mut cs, &m);
+    for k in &kinds {
+        st.count(&format!("structural_{}", k));
+    }
+    check_bytes(&bytes, st, &|| format!("{}structural edits: {:?}", m.render(), kinds))
+}
+
 fn sub_sweep(input: &[u8], st: &mut Stats) -> R {
     let i = idx(input);
     let cases = sweep::cases();
@@ -389,6 +407,7 @@ pub const SUBS: &[Sub] = &[
     Sub { name: "sweep", f: sub_sweep },
     Sub { name: "modules", f: sub_modules },
     Sub { name: "edge-ids", f: sub_edge_ids },
+    Sub { name: "structural-variations", f: sub_structural },
 ];
 
 pub fn run(ctx: &Ctx) {
@@ -397,6 +416,7 @@ pub fn run(ctx: &Ctx) {
     drive_enum(ctx, &SUBS[1], sweep::cases().len() as u64);
     drive_random(ctx, &SUBS[2], ctx.n(40_000, 20_000_000), 1600);
     drive_random(ctx, &SUBS[3], ctx.n(10_000, 5_000_000), 4000);
+    drive_random(ctx, &SUBS[4], ctx.n(30_000, 10_000_000), 1600);
     if !ctx.quick() && !ctx.failed() {
         crate::fuzzing::drive_fuzz(ctx, "modules", 300_000);
     }
